@@ -289,60 +289,47 @@ def f64_abs(x: ir.f64) -> ir.f64:
     return math.fabs(x)
 
 
-def f32_floor(x: ir.f32) -> ir.f32:
-    if math.isinf(x):
+def _round_to_integral(func, x: float) -> float:
+    """Round to an integral value, keeping NaN, infinities and the sign.
+
+    The sign matters for zero results: ceil(-0.5) = -0.0
+    """
+    if math.isnan(x) or math.isinf(x):
         return x
     else:
-        return float(math.floor(x))
+        return math.copysign(float(func(x)), x)
+
+
+def f32_floor(x: ir.f32) -> ir.f32:
+    return _round_to_integral(math.floor, x)
 
 
 def f64_floor(x: ir.f64) -> ir.f64:
-    if math.isinf(x):
-        return x
-    else:
-        return float(math.floor(x))
+    return _round_to_integral(math.floor, x)
 
 
 def f32_ceil(x: ir.f32) -> ir.f32:
-    if math.isinf(x):
-        return x
-    else:
-        return float(math.ceil(x))
+    return _round_to_integral(math.ceil, x)
 
 
 def f64_ceil(x: ir.f64) -> ir.f64:
-    if math.isinf(x):
-        return x
-    else:
-        return float(math.ceil(x))
+    return _round_to_integral(math.ceil, x)
 
 
 def f32_nearest(x: ir.f32) -> ir.f32:
-    if math.isinf(x):
-        return x
-    else:
-        return float(round(x))
+    return _round_to_integral(round, x)
 
 
 def f64_nearest(x: ir.f64) -> ir.f64:
-    if math.isinf(x):
-        return x
-    else:
-        return float(round(x))
+    return _round_to_integral(round, x)
 
 
 def f32_trunc(x: ir.f32) -> ir.f32:
-    if math.isinf(x):
-        return x
-    else:
-        return float(math.trunc(x))
+    return _round_to_integral(math.trunc, x)
 
 
 def f64_trunc(x: ir.f64) -> ir.f64:
-    if math.isinf(x):
-        return x
-    else:
-        return float(math.trunc(x))
+    return _round_to_integral(math.trunc, x)
 
 
 def unreachable() -> None:
